@@ -961,6 +961,7 @@ func (c *Ctx) writePlace(st *State, p Place, v Val) {
 	case c.isValuePlace(p):
 		unsupp("assignment to non-addressable value")
 	case p.heap:
+		c.checkWriteCell(st, p.prefix, p.ty, p.ref, p.idx, c.curPos)
 		c.store(st, p.prefix, p.ty, p.ref, p.idx, c.coerce(st, v, p.ty))
 	case p.isMap:
 		c.mapStore(st, p, v)
